@@ -38,6 +38,27 @@ def do_history(ops, ode_from_string):
             pass
 
 
+def count_rounding_nodes(ode, name):
+    """floor / ceiling nodes left in the symbolic stage of `name` and of everything it depends on"""
+    import sympy
+
+    seen, todo, n = set(), [name], 0
+    while todo:
+        k = todo.pop()
+        if k in seen:
+            continue
+        seen.add(k)
+        try:
+            ex = ode[k].expr
+        except Exception:
+            continue
+        n += len(ex.atoms(sympy.floor)) + len(ex.atoms(sympy.ceiling))
+        for s_ in ex.free_symbols:
+            if s_.name in ode._lookup and hasattr(ode._lookup[s_.name], "expr"):
+                todo.append(s_.name)
+    return n
+
+
 def main():
     job = json.load(sys.stdin)
     import os
@@ -60,6 +81,9 @@ def main():
 
     do_history(job.get("history", []), ode_from_string)
     ode = ode_from_string(job["text"])
+    if job.get("count_rounding_nodes_of"):
+        print("RESULT " + json.dumps({"count": count_rounding_nodes(ode, job["count_rounding_nodes_of"])}))
+        return
     out = {"sha": {}, "code": {}, "errors": {}}
     out["sorted_states"] = [s.name for s in ode.sorted_states()]
     out["sorted_assignments"] = [a.name for a in ode.sorted_assignments()]
